@@ -21,7 +21,9 @@ Definition jhex (b : bytes) : json := JStr (bytes_hex b).
 
 Definition render_outcome (o : outcome) : json :=
   match o with
-  | OkDoc eid doc => JObj [(L "ok", JObj [(L "eid", JStr eid); (L "doc", JObj doc)])]
+  | OkDoc eid doc => JObj [(L "ok", JObj [(L "eid", JStr eid); (L "doc", JObj doc);
+                                         (* does the document meet the hypothesis of the round-trip theorems (C06)? *)
+                                         (L "wf", JBool (JsonLoads.wf_jsonb (JObj doc)))])]
   | Filtered => JObj [(L "filtered", JNull)]
   | BadPH => JObj [(L "badph", JNull)]
   | BadUH => JObj [(L "baduh", JNull)]
